@@ -315,6 +315,10 @@ def run(ctx):
         ctx.guarded(r, AK.check_call_helper, "interval", n)
     ctx.guarded(r, lambda rule: J.r3_callbacks(rule, files=["fidget-jit/src/x86_64/interval.rs"]))
     ctx.guarded(r, AC.check_choice_protocol, "interval")
+    r = ctx.rule("R3d", "native interval products / quotients take their bounds over the non-NaN corners, whatever subset of corners is NaN", 2)
+    ctx.guarded(r, AC.check_corner_reduction, "interval")
+    r = ctx.rule("R3e", "a clause that calls out on a conditional path backs up the callee-saved registers first", 2)
+    ctx.guarded(r, AC.check_callee_save_dominates, "interval")
     r = ctx.rule("R3c", "sibling assemblers agree on magic constants", 5)
     ctx.guarded(r, AC.check_magic_constants, focus="interval")
     r = ctx.rule("R4", "Transformable for Interval is the homogeneous transform of its f32 and Grad siblings", 3)
